@@ -1,6 +1,7 @@
 package sym
 
 import (
+	"regexp"
 	"os"
 	"runtime/debug"
 	"fmt"
@@ -119,6 +120,7 @@ type Exec struct {
 	localMerge    map[string]bool
 	localSumm     map[string]bool
 	civilN        int
+	regexSeen     map[string]*regexp.Regexp
 	inInit        int
 	linked        map[int]bool
 	noMerge       bool
@@ -206,6 +208,9 @@ func (x *Exec) syncConstAxioms() {
 				B.Eq(B.App("dec_neg", smt.SBool, c), B.Bool(d.neg)), B.Eq(B.App("dec_coeff", smt.SInt, c), B.BigInt(d.coeff)), B.Eq(B.App("dec_mag", smt.SReal, c), B.RatC(mag)),
 				B.Eq(B.App("dec_exp", smt.SInt, c), B.Int(int64(d.exp))),
 				B.Eq(B.App("dec_plain", smt.SBool, c), B.Bool(!strings.ContainsAny(s, "eE"))))
+		}
+		for pattern, re := range x.regexSeen {
+			ax = append(ax, B.Eq(B.App(patternName(pattern), smt.SBool, c), B.Bool(re.MatchString(s))))
 		}
 		t := B.And(ax...)
 		x.PC = append(x.PC, t)
